@@ -160,10 +160,11 @@ class P:
                                    for m in o.get("mails") or [])
         smss = "[%s]" % "; ".join("(mkSms %s %s)" % (self.hx(s["to"]), self.hx(s["text"])) for s in o.get("sms") or [])
         calls = "[%s]" % "; ".join(CALLS[c] for c in o.get("calls") or [])
-        return "(mkIobs %s %s %s %s %s %s %s %s %s %s %s %s %s)" % (
+        logs = "[%s]" % "; ".join(self.hx(l) for l in o.get("logs") or [])
+        return "(mkIobs %s %s %s %s %s %s %s %s %s %s %s %s %s %s)" % (
             z(r.get("status", 0)), self.txt(canon_loc(r.get("location", ""))), self.txt(r.get("page", "")), data,
             b(bool(r.get("panic"))), b(o.get("err", False)), self.amap_hex(o.get("sess") or {}),
-            self.amap_hex(o.get("cook") or {}), users, rm, mails, smss, calls)
+            self.amap_hex(o.get("cook") or {}), users, rm, mails, smss, calls, logs)
 
 
 def canon_loc(loc):
